@@ -193,6 +193,9 @@ class CSnap:
     def f(self, o, name):
         return self.objs[id(o)][name]
 
+    def raw(self, o, name):
+        return self.objs[id(o)][name]
+
     def has(self, o, name):
         return name in self.objs[id(o)]
 
@@ -334,6 +337,9 @@ class ConcreteCtx:
         return f.getvalue()[f.tell():]
 
     def f(self, o, name):
+        return getattr(o, name)
+
+    def raw(self, o, name):
         return getattr(o, name)
 
     def has(self, o, name):
